@@ -11,6 +11,6 @@ CONSTANTS
   LMAX = 2
   STALL = 0
   WMAX = 10
-  BUG = "merge_occupied"
+  BUG = "ack_without_merge"
 INVARIANTS NoClauseBroken MemAllowed AckWithinBound OneOutstanding
 CHECK_DEADLOCK TRUE
